@@ -29,11 +29,11 @@ SBodies == { And(NTa("a", VA), NT("b")), And(NTa("a", VA), And(A("!"), NT("b")))
 S2Bodies == { T(<<X>>), NT("b"), And(NT("b"), A("!")), And(T(<<X>>), C("\\+", <<NT("b")>>)) }
 
 Cl(id, r) == [id |-> id, head |-> r.head, body |-> r.body, nv |-> r.nv]
-\* b1pb: the first rule of b has the push-back [y]:  b, [y] --> B1.
+\* b1pb: the first rule of b has a push-back:  b, [y] --> B1.  - of two terminals, b, [y,x] --> B1., in the grammars whose a2 is b
 Db(s1, s2, a1, a2, b1, b1pb) ==
   << [key |-> <<"s", 3>>, dyn |-> FALSE, cls |-> << Cl(1, Rule(NTa("s", VA), <<>>, s1, 2)), Cl(2, Rule(NTa("s", A("r")), <<>>, s2, 0)) >>],
      [key |-> <<"a", 3>>, dyn |-> FALSE, cls |-> << Cl(3, Rule(NTa("a", A("p")), <<>>, a1, 0)), Cl(4, Rule(NTa("a", A("q")), <<>>, a2, 0)) >>],
-     [key |-> <<"b", 2>>, dyn |-> FALSE, cls |-> << Cl(5, Rule(NT("b"), IF b1pb THEN <<Y>> ELSE <<>>, b1, 0)), Cl(6, Rule(NT("b"), <<>>, T(<<Y>>), 0)) >>] >>
+     [key |-> <<"b", 2>>, dyn |-> FALSE, cls |-> << Cl(5, Rule(NT("b"), IF ~b1pb THEN <<>> ELSE IF a2 = NT("b") THEN <<Y, X>> ELSE <<Y>>, b1, 0)), Cl(6, Rule(NT("b"), <<>>, T(<<Y>>), 0)) >>] >>
 
 CONSTANTS NI,       \* maximal input length
           GEN,      \* TRUE: also the generation mode
